@@ -95,6 +95,8 @@ def differential(res, replay):
             return          # (which file is read is not tracked: any file written before counts)
         if args & derived and st["op"] in ("get_values", "save"):
             return          # content of a copy leaves it through the harness (a held list, a file)
+        if derived and st["op"] == "get_values":
+            return          # ... or content of an original: the held list may be given to a copy
         if args and args <= derived:
             derived.update(range(st["n_pre"], len(post["objs"])))     # what the op created
             if st["op"] in PURE_EDITS and st["outcome"] == "ret":
